@@ -486,6 +486,25 @@ class IPPO(MultiAgentRLAlgorithm):
                     agent_masks[agent]
                 ]
 
+            # The reported log-probabilities have to be those of the actions returned
+            final_actions = self.assemble_homogeneous_outputs(action_dict, vect_dim)
+            for shared_id, actor in zip(shared_agent_ids, self.actors):
+                if shared_id in final_actions:
+                    with torch.no_grad():
+                        log_prob = actor.action_log_prob(
+                            torch.as_tensor(
+                                final_actions[shared_id], device=self.device
+                            ).squeeze(-1)
+                            if isinstance(
+                                self.action_space[self.homogeneous_agents[shared_id][0]],
+                                spaces.Discrete,
+                            )
+                            else torch.as_tensor(
+                                final_actions[shared_id], device=self.device
+                            )
+                        )
+                    action_logprob_dict[shared_id] = log_prob.cpu().data.numpy()
+
         return (
             action_dict,
             self.disassemble_homogeneous_outputs(action_logprob_dict, vect_dim),
